@@ -26,6 +26,29 @@ theorem c11_archive_touches_nothing_outside_partial (preserve : Bool) (fs : FS) 
     ∀ l ∈ (run true preserve ⟨fs, []⟩ es).touched, l ≠ .outside :=
   run_safe preserve es ⟨fs, []⟩ (by intro l hl; cases hl)
 
+/-- **An accepted regular entry ends up as a regular file at its own path**, whatever was there
+    (a link included) and wherever that link led. -/
+theorem c11_reg_lands_at_own_path (preserve : Bool) (st st' : St) (p : Path)
+    (h : step true preserve st (.reg p) = some st') : st'.fs p = some .file := by
+  simp only [step] at h
+  split at h
+  · cases h
+  · split at h
+    · cases h
+    · rename_i hp ha
+      have ha' : ancestorsOk st.fs p = true := by simpa using ha
+      have hl := resolve_lexical _ p (noLinkOn_dropLink st.fs p ha')
+      simp only [if_true] at h
+      cases hl with
+      | inl he => rw [he] at h; cases h
+      | inr hat =>
+        rw [hat] at h
+        simp only at h
+        split at h
+        · cases h
+        · cases h
+          simp [FS.set]
+
 /-- A directory holding a link to a file elsewhere and a link to a directory elsewhere. -/
 def prepopulated : FS := fun q =>
   if q = [1] then some (.sym .outside) else if q = [2] then some (.sym .outside) else
